@@ -3,6 +3,7 @@
 #[macro_use]
 mod gamma;
 mod alpha;
+mod conc;
 mod damage;
 mod seq;
 mod shim;
@@ -20,6 +21,10 @@ fn arg(args: &[String], name: &str) -> Option<String> {
 
 fn run_one<K: gamma::HKey>(sc: &Value, scratch: &std::path::Path, out: &mut seq::Out) {
     seq::run_scenario::<K>(sc, scratch, out);
+}
+
+fn run_conc<K: gamma::HKey>(sc: &Value, scratch: &std::path::Path, out: &mut seq::Out) {
+    conc::run_conc_scenario::<K>(sc, scratch, out);
 }
 
 fn main() {
@@ -47,12 +52,16 @@ fn main() {
                 }
                 let sc: Value = serde_json::from_str(&line).expect("scenario json");
                 let mode = sc["env"]["mode"].as_str().unwrap_or("plain");
-                if mode != "plain" && mode != "damage" && mode != "plant" && mode != "gate" && !shim::available() {
+                if !["plain", "damage", "plant", "gate", "conc"].contains(&mode) && !shim::available() {
                     eprintln!("casharn: mode {mode} needs LD_PRELOAD=libfsshim.so");
                     std::process::exit(2);
                 }
                 let kt = sc["cfg"]["kt"].as_str().unwrap_or("string").to_string();
-                with_key_type!(kt.as_str(), run_one, &sc, &scratch, &mut out);
+                if mode == "conc" {
+                    with_key_type!(kt.as_str(), run_conc, &sc, &scratch, &mut out);
+                } else {
+                    with_key_type!(kt.as_str(), run_one, &sc, &scratch, &mut out);
+                }
                 n += 1;
             }
             out.w.flush().unwrap();
